@@ -3,6 +3,7 @@ package ssaexec
 import (
 	"fmt"
 	"path/filepath"
+	"strconv"
 
 	"golang.org/x/tools/go/ssa"
 
@@ -248,6 +249,47 @@ func init() {
 		"vClose": func(x *Exec, _ *ssa.Function, a []Value) Value {
 			return x.C.FEq(a[0].(*smt.Term), a[1].(*smt.Term))
 		},
+		// vNumStr(): the decimal text of a fresh finite float, as a placeholder
+		// token "@k@" that strconv.ParseFloat maps back to the float (C20).
+		"vNumStr": func(x *Exec, _ *ssa.Function, a []Value) Value {
+			v := x.newInput("f64", smt.BV(64))
+			x.inputs = append(x.inputs, Input{Kind: "f64", Term: v})
+			f := x.C.FFromBits(v)
+			x.assume(x.C.And(x.C.Not(x.C.FIsNaN(f)), x.C.Not(x.C.FIsInf(f))))
+			return x.holeFor(f)
+		},
+		// vNumStrOf(f): the decimal text of a computed float
+		"vNumStrOf": func(x *Exec, _ *ssa.Function, a []Value) Value {
+			return x.holeFor(a[0].(*smt.Term))
+		},
+		// vNumOf(s): the float a placeholder stands for (to write oracles)
+		"vNumOf": func(x *Exec, _ *ssa.Function, a []Value) Value {
+			if f, ok := x.holeValue(x.mustStr(a[0])); ok {
+				return f
+			}
+			panic(x.unsupported("vNumOf of a string that is no placeholder"))
+		},
 		"vLoadTape": func(x *Exec, _ *ssa.Function, a []Value) Value { return nil },
 	}
+}
+
+
+func (x *Exec) holeFor(f *smt.Term) Str {
+	if f.IsConst() {
+		return Str{S: strconv.FormatFloat(f.Float(), 'f', -1, 64)}
+	}
+	x.holes = append(x.holes, f)
+	return Str{S: fmt.Sprintf("@%d@", len(x.holes)-1)}
+}
+
+// holeValue resolves a placeholder token produced by holeFor.
+func (x *Exec) holeValue(s string) (*smt.Term, bool) {
+	if len(s) < 3 || s[0] != '@' || s[len(s)-1] != '@' {
+		return nil, false
+	}
+	k, err := strconv.Atoi(s[1 : len(s)-1])
+	if err != nil || k < 0 || k >= len(x.holes) {
+		return nil, false
+	}
+	return x.holes[k], true
 }
